@@ -6,7 +6,7 @@ use rustic_core::{FileType, Id, last_modified_node, repofile::SnapshotFile};
 use serde_json::json;
 
 use crate::{
-    cmds::{Cmd, read_each_snapshot},
+    cmds::{Cmd, Limit, PruneSpec, read_each_snapshot},
     evidence::{Ctx, Meta, Report, catch, panic_sig, run_cases},
     model::{ALL_EDITS, Kind, ModelTree, NameClass, PathKey, apply_edit, pk_display},
     observe::{CmpOpts, Observed, diff_model, diff_obs, observe_ls_dump},
@@ -57,8 +57,54 @@ fn copy_case(_ctx: &Ctx, case: u64, r: &mut Rng, rep: &mut Report) {
         }
     }
     // destination: empty, or pre-populated with part of the content (same chunker => shared blobs), or unrelated
-    let prepop = r.below(3);
-    if prepop == 1 {
+    let prepop = r.below(4);
+    if prepop == 3 {
+        // the destination received these snapshots before, some were forgotten there and a quick prune (no repacking)
+        // removed the packs nothing uses any more: partly used packs stay, so root trees may survive without all that
+        // lies below them
+        if src.snaps.len() < 2 {
+            let _ = evolve(&mut src, r, 2);
+        }
+        // all trees in one pack, every data blob in a pack of its own: the quick prune then keeps the tree pack as
+        // long as one snapshot remains and drops exactly the data nothing uses any more
+        let _ = (Cmd::ApplyConfig { opts: rustic_core::ConfigOptions::default().set_treepack_size(bytesize::ByteSize(200_000)).set_datapack_size(bytesize::ByteSize(1)) }).run(&dst.env);
+        dst.uni.lock().recording = false;
+        let _ = (Cmd::CopyFrom { src: src.env.clone() }).run(&dst.env);
+        dst.uni.lock().recording = true;
+        if let Ok(repo) = dst.env.open() {
+            if let Ok(snaps) = repo.get_all_snapshots() {
+                if snaps.len() >= 2 {
+                    let keep = r.usize_below(snaps.len());
+                    let victims: Vec<_> = snaps.iter().enumerate().filter(|(i, _)| *i != keep && (r.chance(2, 3) || snaps.len() == 2)).map(|(_, s)| s.id).collect();
+                    let _ = repo.delete_snapshots(&victims);
+                }
+            }
+        }
+        let mut spec = PruneSpec::default_safe();
+        spec.max_repack = Limit::Size(0);
+        spec.max_unused = Limit::Unlimited;
+        spec.instant_delete = true;
+        spec.keep_delete_h = 0;
+        let _ = (Cmd::Prune { spec }).run(&dst.env);
+        rep.set_add("copy_variants", "destination-had-the-snapshots-forgot-some-and-quick-pruned");
+        // how often does that leave a root tree of a source snapshot behind whose content is no longer complete?
+        {
+            let drk = dst.rk();
+            let dstate = dst.uni.state(0);
+            if let (Ok(dview), Ok(ssnaps)) = (index_view(&drk, &dstate), src.env.open().and_then(|r| r.get_all_snapshots().map_err(|e| errstr(&e)))) {
+                for sn in ssnaps {
+                    let t: Id = *sn.tree;
+                    if dview.blobs.contains_key(&("tree".to_string(), t)) {
+                        let mut refs = BTreeSet::new();
+                        let complete = crate::rawrepo::reachable(&drk, &dstate, &dview, &t, &mut refs).is_ok() && refs.iter().all(|k| dview.blobs.contains_key(k));
+                        if !complete {
+                            rep.count("copy_destination_holds_root_tree_with_incomplete_content", 1);
+                        }
+                    }
+                }
+            }
+        }
+    } else if prepop == 1 {
         dst.model = src.snaps.values().next().cloned().unwrap_or_default();
         let _ = dst.backup(true);
         rep.set_add("copy_variants", "destination-has-part-of-the-content");
@@ -642,7 +688,7 @@ pub fn run(ctx: &Ctx) -> (Report, Meta) {
     }
     let meta = Meta {
         level: "exploration",
-        rule: "copy: generated source and destination repositories with different keys/configs (destination empty / holding part of the content / unrelated content; tree-data id collisions), every copied snapshot must read back identically in the destination, destination check(read_data) clean, second copy writes nothing. merge: 2-4 snapshots of diverging generated trees (names incl. escaped bytes and invalid UTF-8) merged with last_modified_node vs a reference merge on models (newest wins, directories merged), result strictly name-ordered, inputs untouched; cases with equal-mtime ties between different versions are skipped as ambiguous. rewrite: excluding globs in three forms (!/r/a/b anchored literal, !*.tmp base-name suffix, !/r/dir whole directory) vs (model minus excluded paths), forget on/off, original snapshot kept/removed accordingly. repair snapshots: undamaged => zero storage events; after losing a pack + repair_index => every intact pack is still indexed with the same blobs, no more files are given up than used a blob of the lost pack, every file kept without the .repaired suffix has its original bytes, all snapshots readable, check clean. distinct_nontrivial = distinct class labels per sub-check".to_string(),
+        rule: "copy: generated source and destination repositories with different keys/configs (destination empty / holding part of the content / unrelated content / having received the snapshots before, forgotten some and quick-pruned; tree-data id collisions), every copied snapshot must read back identically in the destination, destination check(read_data) clean, second copy writes nothing. merge: 2-4 snapshots of diverging generated trees (names incl. escaped bytes and invalid UTF-8) merged with last_modified_node vs a reference merge on models (newest wins, directories merged), result strictly name-ordered, inputs untouched; cases with equal-mtime ties between different versions are skipped as ambiguous. rewrite: excluding globs in three forms (!/r/a/b anchored literal, !*.tmp base-name suffix, !/r/dir whole directory) vs (model minus excluded paths), forget on/off, original snapshot kept/removed accordingly. repair snapshots: undamaged => zero storage events; after losing a pack + repair_index => every intact pack is still indexed with the same blobs, no more files are given up than used a blob of the lost pack, every file kept without the .repaired suffix has its original bytes, all snapshots readable, check clean. distinct_nontrivial = distinct class labels per sub-check".to_string(),
         exhaustive: false,
         assumptions: vec!["rewrite patterns use a glob-neutral alphabet for literals; whitelist patterns, character classes and escapes are not generated".to_string()],
     };
